@@ -395,6 +395,10 @@ C05_BatchNotEarly == E.ev = "ret" /\ E.op \in {"BatchWait", "BatchRead"} /\ E.re
 HandleDone(pc) == CASE pc.op \in {"Wait", "Result", "Drain"} -> pc.job \in Jobs /\ (exits[pc.job] >= 1 \/ closeNil[pc.job])
                     [] pc.op \in {"BatchWait", "BatchRead"} -> \A j \in ItemsOf(pc.b) : exits[j] >= 1 \/ closeNil[j] \/ sub[j] = "rej"
                     [] OTHER -> FALSE
+\* ... and on a worker that is running and at rest (no goroutine can move any more; every queue open) nobody sleeps on a handle at all:
+\* whatever the handle still waits for will never happen
+C05_NoSleeper == RunningAtRest /\ (\A q \in Queues : qclosed[q] = "open") =>
+                    \A c \in Clients : pend[c].op \in {"Wait", "Result", "Drain", "BatchWait", "BatchRead"} => ~(\E i \in DOMAIN E.blocked : E.blocked[i] = c)
 C05_Returns == Quiescent => \A c \in Clients : pend[c].op # "none" /\ (\E i \in DOMAIN E.blocked : E.blocked[i] = c) => ~HandleDone(pend[c])
 
 ---- \* C06 barriers
